@@ -325,6 +325,94 @@ pub fn run(tier: Tier) -> i32 {
     if frontier.is_empty() {
         closed = true;
     }
+    // ---- (a) after reset the builder behaves as a new one: for every state reached within 3 operations, reset it
+    // and compare the outcome of every operation with the outcome on DigitString::new()
+    let behaviour = |path: &[u8]| -> Vec<(bool, Option<Fp>)> {
+        (0..ops.len())
+            .map(|oi| {
+                let r = guard(|| {
+                    let (mut b, mut frozen) = replay_path(&ops, path);
+                    let ok = apply(&mut b, &ops[oi]).is_ok();
+                    match ops[oi] {
+                        Op::Freeze => frozen = true,
+                        Op::Reset => frozen = false,
+                        _ => {}
+                    }
+                    (ok, obs(&b, frozen))
+                });
+                match r {
+                    Ok((ok, fp)) => (ok, Some(fp)),
+                    Err(_) => (false, None),
+                }
+            })
+            .collect()
+    };
+    let reset_idx = ops.iter().position(|o| *o == Op::Reset).unwrap() as u8;
+    let fresh = behaviour(&[]);
+    let mut shallow: Vec<Vec<u8>> = seen.values().filter(|p| p.len() <= 3).cloned().collect();
+    shallow.sort();
+    for path in &shallow {
+        let mut p2 = path.clone();
+        p2.push(reset_idx);
+        acc.transitions += ops.len() as u64;
+        acc.traces += 1;
+        let got = behaviour(&p2);
+        if let Some(oi) = (0..ops.len()).find(|&i| got[i] != fresh[i]) {
+            let mut names: Vec<String> = p2.iter().map(|&i| ops[i as usize].name()).collect();
+            names.push(ops[oi].name());
+            ctx.report(&mut acc, Violation {
+                lang: "-".into(),
+                entry: "digit_ops".into(),
+                input: names.join("; "),
+                threshold: None,
+                clause: "after reset the builder behaves as a new one".into(),
+                expected: format!("{:?} as on DigitString::new()", fresh[oi]),
+                observed: format!("{:?}", got[oi]),
+            });
+        }
+    }
+    // ---- (b) repetition chains: from every state reached within 2 operations, each operation repeated 12 times
+    // (accumulating effects such as many leading zeros, repeated shifts or pushes), all invariants on every step
+    let mut chain_steps = 0u64;
+    let mut starts: Vec<(Fp, Vec<u8>)> = seen.iter().filter(|(_, p)| p.len() <= 2).map(|(f, p)| (f.clone(), p.clone())).collect();
+    starts.sort_by(|a, b| a.1.cmp(&b.1));
+    let chain_results: Vec<Vec<(Vec<u8>, usize, Vec<(String, String, String)>)>> = starts
+        .par_iter()
+        .map(|(fp0, path0)| {
+            let mut out = vec![];
+            for oi in 0..ops.len() {
+                let (mut fp, mut path) = (fp0.clone(), path0.clone());
+                for _ in 0..12 {
+                    let r = step(&ops, &fp, &path, oi);
+                    if !r.viols.is_empty() {
+                        out.push((path.clone(), oi, r.viols));
+                    }
+                    match r.next {
+                        Some(n) if n.0.len() <= 40 => {
+                            fp = n;
+                            path.push(oi as u8);
+                        }
+                        _ => break,
+                    }
+                }
+            }
+            out
+        })
+        .collect();
+    for part in chain_results {
+        for (path, oi, viols) in part {
+            for (clause, expected, observed) in viols {
+                let mut names: Vec<String> = path.iter().map(|&i| ops[i as usize].name()).collect();
+                names.push(ops[oi].name());
+                ctx.report(&mut acc, Violation { lang: "-".into(), entry: "digit_ops".into(), input: names.join("; "), threshold: None, clause, expected, observed });
+            }
+        }
+    }
+    chain_steps += (starts.len() * ops.len() * 12) as u64;
+    acc.transitions += chain_steps;
+    acc.traces += chain_steps;
+    acc.count("repetition_chain_steps_upper_bound", chain_steps);
+    acc.count("reset_behaviour_comparisons", shallow.len() as u64);
     acc.states = seen.len() as u64;
     acc.nontrivial = seen.len() as u64;
     acc.evals = acc.transitions;
@@ -340,6 +428,7 @@ pub fn run(tier: Tier) -> i32 {
         "length_bound": LEN_BOUND,
         "successors_beyond_length_bound": dropped_by_len,
         "queries_per_state": 5 + 10 + 4 + 36 + 1,
+        "extra": "every state within 3 operations is reset and compared operation by operation with a new builder; from every state within 2 operations each operation is repeated 12 times",
     });
     ctx.finish(acc, cov, vec![
         "only ASCII digit arguments are fed; is_range_free's documented precondition start < end is honoured".into(),
